@@ -30,6 +30,13 @@ theorem potential_setTask (s : St) (i : Nat) (old new : Task) (h : s.tasks[i]? =
   simp only
   omega
 
+theorem potential_setCond (s : St) (k : Nat) (old new : Cond) (h : s.conds[k]? = some old) :
+    potential { s with conds := s.conds.set k new } + cw old = potential s + cw new := by
+  have := sum_map_set cw s.conds k new old h
+  unfold potential
+  simp only
+  omega
+
 theorem potential_spawnTask (s : St) (t : Nat) : potential (spawnTask s t) ≤ potential s + 1 := by
   unfold spawnTask
   split
@@ -42,13 +49,54 @@ theorem potential_spawnTask (s : St) (t : Nat) : potential (spawnTask s t) ≤ p
       have e : tw3 { tk with started := true } = tw3 tk := rfl
       omega
 
+theorem potential_grant (s : St) (wk : Kind) (wi : Nat) : potential (grant s wk wi) = potential s + 1 := by
+  unfold grant
+  split
+  · exact potential_enqueue _ _ _
+  · rename_i tk h
+    rw [potential_enqueue]
+    have := potential_setTask s wi tk { tk with granted := true } h
+    have e : tw3 { tk with granted := true } = tw3 tk := rfl
+    omega
+
 theorem potential_wakeCond (s : St) (k : Nat) : potential (wakeCond s k) ≤ potential s + 1 := by
   unfold wakeCond
   split
   · omega
-  · split
-    · exact Nat.le_succ _
-    · rw [potential_enqueue]; exact Nat.le_refl _
+  · rename_i c hc
+    split
+    · rename_i hw
+      have := potential_setCond s k c { c with permits := if c.cap1 then 1 else c.permits + 1 } hc
+      have e : cw { c with permits := if c.cap1 then 1 else c.permits + 1 } = cw c := rfl
+      omega
+    · rename_i wk wi r hw
+      rw [potential_grant]
+      have := potential_setCond s k c { c with waiters := r } hc
+      have e1 : cw c = r.length + 1 := by unfold cw; rw [hw]; simp
+      have e2 : cw { c with waiters := r } = r.length := rfl
+      omega
+
+theorem potential_grantAll : ∀ (l : List (Kind × Nat)) (s : St), potential (grantAll l s) = potential s + l.length := by
+  intro l
+  induction l with
+  | nil => intro s; rfl
+  | cons a l ih =>
+    intro s
+    obtain ⟨wk, wi⟩ := a
+    simp only [grantAll, List.length_cons]
+    rw [ih, potential_grant]
+    omega
+
+theorem potential_wakeAll (s : St) (k : Nat) : potential (wakeAll s k) ≤ potential s + 1 := by
+  unfold wakeAll
+  split
+  · omega
+  · rename_i c hc
+    rw [potential_grantAll]
+    have := potential_setCond s k c { c with waiters := [] } hc
+    have e1 : cw c = c.waiters.length := rfl
+    have e2 : cw { c with waiters := [] } = 0 := rfl
+    omega
 
 theorem potential_setProg (s : St) (i : Nat) (p r : List Instr) (h : TaskAt s i p) :
     potential (setProg s i r) + (p.map iw3).sum = potential s + (r.map iw3).sum := by
@@ -56,8 +104,8 @@ theorem potential_setProg (s : St) (i : Nat) (p r : List Instr) (h : TaskAt s i 
   unfold setProg
   rw [h1]
   have := potential_setTask s i tk { tk with prog := r } h1
-  have e1 : tw3 tk = 1 + (p.map iw3).sum := by unfold tw3; simp [h3, h2]
-  have e2 : tw3 { tk with prog := r } = 1 + (r.map iw3).sum := by unfold tw3; simp [h3]
+  have e1 : tw3 tk = 1 + (p.map iw3).sum + jw tk := by unfold tw3; simp [h3, h2]
+  have e2 : tw3 { tk with prog := r } = 1 + (r.map iw3).sum + jw tk := by unfold tw3; simp [h3]; rfl
   simp only at this ⊢
   omega
 
@@ -67,12 +115,15 @@ theorem potential_finish (s : St) (i : Nat) (p : List Instr) (h : TaskAt s i p) 
   unfold finish
   rw [h1]
   have := potential_setTask s i tk { tk with done := true, prog := [] } h1
-  have e1 : 1 ≤ tw3 tk := by unfold tw3; simp [h3]
+  have e1 : 1 + jw tk ≤ tw3 tk := by unfold tw3; simp [h3]
   have e2 : tw3 { tk with done := true, prog := [] } = 0 := by unfold tw3; simp
   simp only at this ⊢
   split
   · omega
-  · rw [potential_enqueue]; omega
+  · rename_i hj
+    rw [potential_enqueue]
+    have : jw tk = 1 := by unfold jw; simp [hj]
+    omega
 
 theorem ite_le_one (p : Prop) [Decidable p] : (if p then 1 else 0) ≤ 1 := by split <;> omega
 
@@ -91,6 +142,18 @@ theorem potential_runProg (k : Kind) (i : Nat) :
     intro c rdy org s h
     have hs := potential_setProg s i (ins :: r) r h
     have ht := taskAt_setProg s i (ins :: r) r h
+    -- consume the instruction, log, continue
+    have hcont : ∀ (c' : Nat) (s1 : St), TaskAt s1 i (ins :: r) → potential s1 = potential s → 2 ≤ iw3 ins →
+        potential (runProg k i r c' s.now s.phase (logAt (setProg s1 i r) i rdy org)) ≤ potential s := by
+      intro c' s1 h1 hm hw
+      have hs1 := potential_setProg s1 i (ins :: r) r h1
+      have h2 := ih c' s.now s.phase (logAt (setProg s1 i r) i rdy org) (taskAt_setProg s1 i (ins :: r) r h1)
+      rw [potential_logAt] at h2
+      simp only [List.map_cons, List.sum_cons] at hs1
+      have hf := ite_le_one (c' = 0)
+      omega
+    have hdefer : c = 0 → potential (defer s k i) ≤ potential s + (if c = 0 then 1 else 0) := by
+      intro hc; rw [potential_defer]; simp [hc]
     cases ins with
     | spawn t =>
       simp only [runProg]
@@ -104,6 +167,12 @@ theorem potential_runProg (k : Kind) (i : Nat) :
       have h3 := potential_wakeCond (setProg s i r) q
       simp [iw3] at hs
       omega
+    | notifyAll q =>
+      simp only [runProg]
+      have h2 := ih c rdy org _ (taskAt_wakeAll _ q i r ht)
+      have h3 := potential_wakeAll (setProg s i r) q
+      simp [iw3] at hs
+      omega
     | yield =>
       simp only [runProg]
       rw [potential_defer]
@@ -112,9 +181,7 @@ theorem potential_runProg (k : Kind) (i : Nat) :
       omega
     | resume =>
       simp only [runProg]
-      have h2 := ih c s.now s.phase (logAt (setProg s i r) i rdy org) ht
-      rw [potential_logAt] at h2
-      simp [iw3] at hs
+      have := hcont c s h rfl (by simp [iw3])
       omega
     | wait q =>
       simp only [runProg]
@@ -123,42 +190,78 @@ theorem potential_runProg (k : Kind) (i : Nat) :
       · rename_i cd hc
         split
         · rename_i hc0
-          rw [potential_defer]
-          have : c = 0 := by
-            simp only [Bool.and_eq_true, beq_iff_eq] at hc0
-            exact hc0.2
-          simp [this]
+          refine hdefer ?_
+          simp only [Bool.and_eq_true, beq_iff_eq] at hc0
+          exact hc0.2
         · split
-          · have e : potential { s with conds := s.conds.set q { cd with waiter := some (k, i) } } = potential s := rfl
+          · have ht' : TaskAt { s with conds := s.conds.set q { cd with waiters := cd.waiters ++ [(k, i)] } } i
+                (.wait q :: r) := h
+            have h1 := potential_setProg _ i (.wait q :: r) (.waiting q :: r) ht'
+            have h2 := potential_setCond s q cd { cd with waiters := cd.waiters ++ [(k, i)] } hc
+            have e : cw { cd with waiters := cd.waiters ++ [(k, i)] } = cw cd + 1 := by unfold cw; simp
+            simp [iw3] at h1
             omega
-          · have ht' : TaskAt { s with conds := s.conds.set q { cd with permits := cd.permits - 1 } } i (.wait q :: r) := h
-            have hs' := potential_setProg _ i (.wait q :: r) r ht'
-            have ht2 := taskAt_setProg _ i (.wait q :: r) r ht'
-            have h2 := ih (if cd.coop then c - 1 else c) s.now s.phase (logAt (setProg _ i r) i rdy org) ht2
-            rw [potential_logAt] at h2
-            have e : potential { s with conds := s.conds.set q { cd with permits := cd.permits - 1 } } = potential s := rfl
-            simp [iw3] at hs'
-            have hf := ite_le_one ((if cd.coop then c - 1 else c) = 0)
+          · have ht' : TaskAt { s with conds := s.conds.set q { cd with permits := cd.permits - 1 } } i
+                (.wait q :: r) := h
+            have h2 := potential_setCond s q cd { cd with permits := cd.permits - 1 } hc
+            have e : cw { cd with permits := cd.permits - 1 } = cw cd := rfl
+            have := hcont (if cd.coop then c - 1 else c) _ ht' (by omega) (by simp [iw3])
             omega
+    | waiting q =>
+      simp only [runProg]
+      generalize condCoop s q = coop
+      split
+      · omega
+      · rename_i tk htk
+        split
+        · rename_i hc0
+          refine hdefer ?_
+          simp only [Bool.and_eq_true, beq_iff_eq] at hc0
+          exact hc0.2
+        · split
+          · have ht' : TaskAt { s with tasks := s.tasks.set i { tk with granted := false } } i (.waiting q :: r) :=
+              taskAt_setTask s i i _ tk _ htk rfl rfl h
+            have h2 := potential_setTask s i tk { tk with granted := false } htk
+            have e : tw3 { tk with granted := false } = tw3 tk := rfl
+            have := hcont (if coop then c - 1 else c) _ ht' (by omega) (by simp [iw3])
+            omega
+          · omega
     | join t =>
       simp only [runProg]
       split
       · omega
       · rename_i tj hj
         split
-        · rename_i hc0
-          rw [potential_defer]
-          have : c = 0 := by simpa using hc0
-          simp [this]
+        · omega
         · split
-          · have h2 := ih (c - 1) s.now s.phase (logAt (setProg s i r) i rdy org) ht
-            rw [potential_logAt] at h2
-            simp [iw3] at hs
-            have hf := ite_le_one (c - 1 = 0)
+          · rename_i hc0
+            exact hdefer (by simpa using hc0)
+          · split
+            · have := hcont (c - 1) s h rfl (by simp [iw3])
+              omega
+            · have ht' : TaskAt { s with tasks := s.tasks.set t { tj with joiner := some (k, i) } } i (.join t :: r) :=
+                taskAt_setTask s t i _ tj _ hj rfl rfl h
+              have h1 := potential_setProg _ i (.join t :: r) (.joining t :: r) ht'
+              have h2 := potential_setTask s t tj { tj with joiner := some (k, i) } hj
+              have e : tw3 { tj with joiner := some (k, i) } ≤ tw3 tj + 1 := by
+                unfold tw3 jw
+                simp only
+                split
+                · omega
+                · split <;> simp <;> omega
+              simp [iw3] at h1
+              omega
+    | joining t =>
+      simp only [runProg]
+      split
+      · omega
+      · split
+        · rename_i hc0
+          exact hdefer (by simpa using hc0)
+        · split
+          · have := hcont (c - 1) s h rfl (by simp [iw3])
             omega
-          · have := potential_setTask s t tj { tj with joiner := some (k, i) } hj
-            have e : tw3 { tj with joiner := some (k, i) } = tw3 tj := rfl
-            omega
+          · omega
     | sleep d =>
       simp only [runProg]
       split
@@ -166,10 +269,7 @@ theorem potential_runProg (k : Kind) (i : Nat) :
         have := potential_setProg s i (.sleep d :: r) (.sleeping (s.now + d) :: r) h
         simp [iw3] at this
         omega
-      · have h2 := ih c s.now s.phase (logAt (setProg s i r) i rdy org) ht
-        rw [potential_logAt] at h2
-        simp [iw3] at hs
-        have hf := ite_le_one (c = 0)
+      · have := hcont c s h rfl (by simp [iw3])
         omega
     | sleepUntil t =>
       simp only [runProg]
@@ -178,18 +278,13 @@ theorem potential_runProg (k : Kind) (i : Nat) :
         have := potential_setProg s i (.sleepUntil t :: r) (.sleeping t :: r) h
         simp [iw3] at this
         omega
-      · have h2 := ih c s.now s.phase (logAt (setProg s i r) i rdy org) ht
-        rw [potential_logAt] at h2
-        simp [iw3] at hs
-        have hf := ite_le_one (c = 0)
+      · have := hcont c s h rfl (by simp [iw3])
         omega
     | sleeping t =>
       simp only [runProg]
       split
       · omega
-      · have h2 := ih c s.now s.phase (logAt (setProg s i r) i rdy org) ht
-        rw [potential_logAt] at h2
-        simp [iw3] at hs
+      · have := hcont c s h rfl (by simp [iw3])
         omega
 
 theorem potential_markPolled (s : St) (i : Nat) : potential (markPolled s i) = potential s := by
@@ -272,12 +367,25 @@ theorem foldl_push_tasks (l : List Entry) (f : Entry → Entry) :
     simp only [List.foldl_cons]
     rw [ih, tasks_pushEntry]
 
+theorem conds_pushEntry (s : St) (e : Entry) : (pushEntry s e).conds = s.conds := by
+  unfold pushEntry; cases e.kind <;> simp only <;> split <;> rfl
+
+theorem foldl_push_conds (l : List Entry) (f : Entry → Entry) :
+    ∀ s : St, (l.foldl (fun s e => pushEntry s (f e)) s).conds = s.conds := by
+  induction l with
+  | nil => intro s; rfl
+  | cons a l ih =>
+    intro s
+    simp only [List.foldl_cons]
+    rw [ih, conds_pushEntry]
+
 theorem potential_flush (s : St) : potential (flush s) = potential s := by
   have h1 := flush_len s
   have h2 := flush_dq s
   have h3 : (flush s).tasks = s.tasks := by unfold flush; rw [foldl_push_tasks]
+  have h4 : (flush s).conds = s.conds := by unfold flush; rw [foldl_push_conds]
   unfold potential
-  rw [h2, h3]
+  rw [h2, h3, h4]
   simp only [List.length_nil]
   omega
 
